@@ -296,6 +296,22 @@ func init() {
 				}
 				return true
 			})
+			// ... or private functions of the package of the same shape
+			markerFns := map[*types.Func]bool{}
+			for _, hu := range c.withHelpers(u) {
+				if hu.Obj == fn {
+					continue
+				}
+				ps := paramObjs(hu)
+				if len(ps) < 2 {
+					continue
+				}
+				for _, ce := range callsIn(hu.Decl.Body, false) {
+					if originOf(Callee(hu.Pkg.TypesInfo, ce)) == walk && len(ce.Args) >= 1 && identObj(hu.Pkg.TypesInfo, ce.Args[0]) == ps[0] {
+						markerFns[hu.Obj] = true
+					}
+				}
+			}
 			// names maps that receive formals are "parameter" name sets
 			paramNames := map[types.Object]bool{}
 			ast.Inspect(fd.Body, func(n ast.Node) bool {
@@ -369,8 +385,15 @@ func init() {
 			}
 			type region struct{ where, names string }
 			regionsUnder := func(fun, scope bool) (rs []region, undecided string) {
-				s1 := flagPruner(info, fd.Body, funP, fun)
-				s2 := flagPruner(info, fd.Body, scopeP, scope)
+				known := map[types.Object]bool{}
+				if funP != nil {
+					known[funP] = fun
+				}
+				if scopeP != nil {
+					known[scopeP] = scope
+				}
+				s1 := condPruner(info, fd.Body, known)
+				s2 := func(ast.Node) bool { return false }
 				ast.Inspect(fd.Body, func(n ast.Node) bool {
 					if n != nil && (s1(n) || s2(n)) {
 						return false
@@ -385,6 +408,8 @@ func init() {
 					}
 					var regionArg, namesArg ast.Expr
 					if o := identObj(info, ce.Fun); o != nil && markers[o] && len(ce.Args) >= 2 {
+						regionArg, namesArg = ce.Args[0], ce.Args[1]
+					} else if f := originOf(Callee(info, ce)); f != nil && markerFns[f] && len(ce.Args) >= 2 {
 						regionArg, namesArg = ce.Args[0], ce.Args[1]
 					} else if originOf(Callee(info, ce)) == walk && len(ce.Args) >= 1 {
 						regionArg = ce.Args[0]
